@@ -1612,6 +1612,9 @@ class Interp:
 
     # ---------------------------------------------------------------- primitives
     def call_prim(self, name, args, kwargs, node):
+        if name not in self.prims:
+            from .astutil import strip_stdlib_prefix
+            name = strip_stdlib_prefix(name)
         if name in self.prims:
             r = self.prims[name](self, args, kwargs, node)
             if r is not NotImplemented:
